@@ -181,20 +181,24 @@ def Filler.wf (f : Filler) : Bool :=
 def printFillers (fs : List Filler) : List Str := fs.map Filler.print
 
 /-! ### hex address lists: `hexNumberRE.FindAllString` + `ParseUint(_, 0, 64)` -/
-/-- all maximal `0x[0-9a-f]+` occurrences, left to right (non-overlapping, leftmost-first, as
-`FindAllString` reports them); fuel = length. -/
-def findHexAux : Nat → Str → List Str
-  | 0, _ => []
-  | f+1, s =>
-    match s with
-    | [] => []
-    | _ :: t =>
-      match stripPrefix [48, 120] s with
-      | some r =>
-        let ds := r.takeWhile isHexLower
-        if ds.isEmpty then findHexAux f t else ds :: findHexAux f (r.dropWhile isHexLower)
-      | none => findHexAux f t
-def findHex (s : Str) : List Str := findHexAux (s.length + 1) s
+/-- scanner state of `hexNumberRE` = `0x[0-9a-f]+`: nothing yet, seen `0`, seen `0x`, inside the digits. -/
+inductive HexSt where
+  | s0 | s1 | s2 | s3 (acc : Str)
+  deriving Repr, DecidableEq
+
+/-- a byte that does not continue the current attempt is looked at afresh. -/
+def hexRestart (b : UInt8) : HexSt := if b.toNat == 48 then .s1 else .s0
+
+/-- all `0x[0-9a-f]+` occurrences, left to right, non-overlapping, each as long as possible (what
+`FindAllString` reports); the captured digits (without `0x`) are returned. -/
+def findHexGo : Str → HexSt → List Str
+  | [], .s3 acc => [acc.reverse]
+  | [], _ => []
+  | b :: r, .s0 => findHexGo r (hexRestart b)
+  | b :: r, .s1 => if b.toNat == 120 then findHexGo r .s2 else findHexGo r (hexRestart b)
+  | b :: r, .s2 => if isHexLower b then findHexGo r (.s3 [b]) else findHexGo r (hexRestart b)
+  | b :: r, .s3 acc => if isHexLower b then findHexGo r (.s3 (b :: acc)) else acc.reverse :: findHexGo r (hexRestart b)
+def findHex (s : Str) : List Str := findHexGo s .s0
 
 def parseHexList : List Str → Option (List Nat)
   | [] => some []
